@@ -254,6 +254,14 @@ pub fn gen(args: &Args, out: &mut dyn Write) {
         let hi: Vec<i64> = lo.iter().map(|l| l + rng.range(1, 12)).collect();
         let p: Vec<i64> = (0..3).map(|i| match rng.below(4) { 0 => lo[i], 1 => hi[i], _ => rng.range(lo[i] - 2, hi[i] + 2) }).collect();
         emit(out, json!({"op": "ortho", "lo": lo, "hi": hi, "p": p}));
+        // the same box with some axes mirrored (y-down screens, left-handed depth): lo and hi change places
+        if rng.chance(1, 3) {
+            let (mut lo2, mut hi2) = (lo.clone(), hi.clone());
+            for i in 0..3 {
+                if rng.chance(1, 2) { std::mem::swap(&mut lo2[i], &mut hi2[i]); }
+            }
+            emit(out, json!({"op": "ortho", "lo": lo2, "hi": hi2, "p": p}));
+        }
         let (x0, y0) = (rng.range(0, 20), rng.range(0, 20));
         let (x1, y1) = (rng.range(0, 40), rng.range(0, 40)); // empty and mirrored rectangles included
         emit(out, json!({"op": "viewport", "rc": [x0, y0, x1, y1], "nd": [rng.range(-6, 6), rng.range(-6, 6)]}));
